@@ -321,7 +321,7 @@ func c18FeeQuoteHistory(c *mon.Ctx, h *c18Hist) {
 			init = append(init, c18Op{proc: -1, kind: "init", key: "fee:" + m + ":" + string(t), write: true, val: valDefault})
 		}
 	}
-	for _, m := range []string{"m2", "m3"} {
+	for _, m := range []string{"m2", "m3", "m4"} {
 		for _, t := range types {
 			init = append(init, c18Op{proc: -1, kind: "init", key: "fee:" + m + ":" + string(t), write: true, val: valAbsent})
 		}
@@ -451,7 +451,7 @@ func c18FeeQuoteHistory(c *mon.Ctx, h *c18Hist) {
 							c18Op{proc: g, kind: "FeeQuote.UnmarshalJSON", key: fmt.Sprintf("fee:free%d:%s", i, bt.FeeTypeData), write: true, val: b2, call: call, ret: ret})
 					}
 				case 10, 11: // FeeQuotes.Fee
-					m := prng.Pick(r, []string{"m0", "m1", "m2", "m3"})
+					m := prng.Pick(r, []string{"m0", "m1", "m2", "m3", "m4", "m4"})
 					call := rec.tick()
 					f, err := fqs.Fee(m, t)
 					ret := rec.tick()
@@ -465,8 +465,8 @@ func c18FeeQuoteHistory(c *mon.Ctx, h *c18Hist) {
 						rec.mu.Unlock()
 					}
 					rec.add(c18Op{proc: g, kind: "FeeQuotes.Fee", key: "fee:" + m + ":" + string(t), val: id, call: call, ret: ret})
-				case 12, 13: // FeeQuotes.UpdateMinerFees (known miners only, so that it is a plain write)
-					m := prng.Pick(r, []string{"m0", "m1"})
+				case 12, 13: // FeeQuotes.UpdateMinerFees (known miners only, so that it is a plain write; "m4" once it has been added)
+					m := prng.Pick(r, []string{"m0", "m1", "m4", "m4"})
 					id := newID()
 					if r.Bool() {
 						id |= untypedBit
@@ -530,6 +530,19 @@ func c18FeeQuoteHistory(c *mon.Ctx, h *c18Hist) {
 					}
 					rec.add(c18Op{proc: g, kind: "FeeQuotes.Quote+Fee", key: "fee:" + m + ":" + string(t), val: id, call: call, ret: ret})
 				case 15: // the first goroutines add the two late miners exactly once
+					if !rec.raw && r.Chance(1, 2) {
+						// the miner "m4" is only ever reached through the collection (no handles): it is
+						// REPLACED, again and again, by quotes whose two fees carry fresh unique values -
+						// one write of both registers - while others update single fees and read
+						a, b2 := newID(), newID()
+						q := bt.NewFeeQuote().AddQuote(bt.FeeTypeStandard, mkFee(bt.FeeTypeStandard, a)).AddQuote(bt.FeeTypeData, mkFee(bt.FeeTypeData, b2))
+						call := rec.tick()
+						fqs.AddMiner("m4", q)
+						ret := rec.tick()
+						rec.add(c18Op{proc: g, kind: "FeeQuotes.AddMiner(replace)", key: "fee:m4:" + string(bt.FeeTypeStandard), write: true, val: a, call: call, ret: ret},
+							c18Op{proc: g, kind: "FeeQuotes.AddMiner(replace)", key: "fee:m4:" + string(bt.FeeTypeData), write: true, val: b2, call: call, ret: ret})
+						continue
+					}
 					if rec.raw && r.Chance(1, 2) {
 						// raw histories only (no register semantics judged): a known miner is added again
 						// while handles to its earlier quote are still being read
